@@ -510,3 +510,9 @@ Lemma thm_wrapper_clip_exact : forall erfR (St : Type)
     ((Forall2 (fun xi b => fst b <= xi <= snd b) x0 bounds /\ x = x0 /\ f = f0) \/
      (Exists (fun p => fst p < fst (snd p) \/ snd (snd p) < fst p) (combine x0 bounds) /\ reeval x = Ok f)).
 Proof. intros erfR St. exact (minimize_clip_exact erfR). Qed.
+
+(* what NRNsScan2dMinimizerImpl stores for the best step, and the remaining closure plumbing *)
+Lemma K_scan_store (x f st nt ns pidx : Z) :
+  scan_best_x x = x /\ scan_best_f f = f /\ scan_best_status st = st /\ scan_total_niter nt = nt /\
+  mx_closure_grad2_kw_ns ns = ns /\ mx_closure_grad2_kw_pidx pidx = pidx.
+Proof. repeat split. Qed.
